@@ -3,8 +3,8 @@
 code -> spec binding for specs/ProvideRefs.tla (general refcount machine; used by C05, C06, C07):
 every call of set_provided_context_var / managed_provide_cache (entry, exit) /
 register_provide_reference / unregister_provide_reference / get_injected_context_var made by real
-renders is logged at its linearization point - inside the library's own `_provide_lock` (an RLock),
-after the state change - together with its arguments (for a register: the provide ids the context
+renders is logged at its linearization point - for the four critical sections inside the library's own
+`_provide_lock` (an RLock), after the state change - together with its arguments (for a register: the provide ids the context
 shows), its result and the full projected state of the three registries.  No source hooks: the
 module-level names are wrapped in the three modules that bind them.  Nested calls (the unregister
 inside the exit block of managed_provide_cache) are not logged separately: the exit is ONE action of
@@ -23,14 +23,16 @@ import threading
 from contextlib import contextmanager
 from typing import Any, Dict, List, Optional
 
-_state: Dict[str, Any] = {"installed": False, "available": False, "events": None, "nest": None}
+_state: Dict[str, Any] = {"installed": False, "available": False, "events": None, "nest": None, "multi": False}
 _tls = threading.local()
 
 
 def _snapshot(pp) -> Dict[str, Any]:
-    return {"cache": sorted(pp.provide_cache.keys()),
-            "refs": {k: sorted(v) for k, v in pp.provide_references.items()},
-            "all": sorted(pp.all_reference_ids)}
+    # (base-class reads: under C07's cooperative scheduler the registries are traced subclasses whose
+    #  operations are yield points - the snapshot must not be one)
+    return {"cache": sorted(dict.keys(pp.provide_cache)),
+            "refs": {k: sorted(set.__iter__(v)) for k, v in dict.items(pp.provide_references)},
+            "all": sorted(set.__iter__(pp.all_reference_ids))}
 
 
 def install() -> bool:
@@ -45,7 +47,6 @@ def install() -> bool:
         from django_components.context import _INJECT_CONTEXT_KEY_PREFIX as PREFIX
         o_reg, o_unreg, o_mpc = pp.register_provide_reference, pp.unregister_provide_reference, pp.managed_provide_cache
         o_set, o_get = dp.set_provided_context_var, dp.get_injected_context_var
-        lock = pp._provide_lock
         assert dc.register_provide_reference is o_reg and dc.unregister_provide_reference is o_unreg
         assert dp.managed_provide_cache is o_mpc and dp.register_provide_reference is o_reg
         assert dc.get_injected_context_var is o_get
@@ -57,6 +58,9 @@ def install() -> bool:
         if evs is None:
             return
         ev["t"] = threading.get_ident()
+        # set / inject are not critical sections: with several threads their snapshot could show the middle of
+        # another thread's critical section, so none is taken (the trace specification then follows the model)
+        ev["snap"] = not (_state["multi"] and ev["op"] in ("set", "inject"))
         ev["post"] = _snapshot(pp)
         evs.append(ev)
 
@@ -74,7 +78,7 @@ def install() -> bool:
     def register(context, reference_id):
         if _state["events"] is None or nested():
             return o_reg(context, reference_id)
-        with lock:
+        with pp._provide_lock:
             ps = sorted({v for k, v in context.flatten().items() if isinstance(k, str) and k.startswith(PREFIX)})
             ev = {"op": "reg", "id": reference_id, "ps": ps, "raised": ""}
             try:
@@ -89,7 +93,7 @@ def install() -> bool:
     def unregister(reference_id):
         if _state["events"] is None or nested():
             return o_unreg(reference_id)
-        with lock:
+        with pp._provide_lock:
             ev = {"op": "unreg", "id": reference_id, "ps": [], "raised": ""}
             try:
                 with frame():
@@ -107,7 +111,7 @@ def install() -> bool:
                 yield
             return
         cm = o_mpc(provide_id)
-        with lock:
+        with pp._provide_lock:
             ev = {"op": "enter", "id": provide_id, "ps": [], "raised": ""}
             try:
                 with frame():
@@ -120,7 +124,7 @@ def install() -> bool:
         try:
             yield
         except BaseException as body_exc:  # noqa: BLE001
-            with lock:
+            with pp._provide_lock:
                 ev = {"op": "exit", "id": provide_id, "ps": [], "raised": "", "body_failed": True}
                 try:
                     with frame():
@@ -134,7 +138,7 @@ def install() -> bool:
             if not swallowed:
                 raise
         else:
-            with lock:
+            with pp._provide_lock:
                 ev = {"op": "exit", "id": provide_id, "ps": [], "raised": "", "body_failed": False}
                 try:
                     with frame():
@@ -145,38 +149,38 @@ def install() -> bool:
                 finally:
                     log(ev)
 
+    # set_provided_context_var / get_injected_context_var are not critical sections of the library (one dict
+    # write / read): the wrappers do not take the lock either, the event is logged right after the access
     def set_provided(context, key, provided_kwargs):
         if _state["events"] is None:
             return o_set(context, key, provided_kwargs)
-        with lock:
-            ev = {"op": "set", "id": "", "ps": [], "raised": ""}
-            try:
-                pid = o_set(context, key, provided_kwargs)
-                ev["id"] = pid
-                return pid
-            except BaseException as e:  # noqa: BLE001
-                ev["raised"] = type(e).__name__
-                raise
-            finally:
-                if ev["id"] or ev["raised"]:
-                    log(ev)
+        ev = {"op": "set", "id": "", "ps": [], "raised": ""}
+        try:
+            pid = o_set(context, key, provided_kwargs)
+            ev["id"] = pid
+            return pid
+        except BaseException as e:  # noqa: BLE001
+            ev["raised"] = type(e).__name__
+            raise
+        finally:
+            if ev["id"] or ev["raised"]:
+                log(ev)
 
     def get_injected(component_name, context, key, default=None):
         if _state["events"] is None:
             return o_get(component_name, context, key, default)
-        with lock:
-            p = context.get(PREFIX + key) if isinstance(key, str) else None
-            if p is None:
-                return o_get(component_name, context, key, default)     # no provider visible: nothing to bind
-            ev = {"op": "inject", "id": p, "ps": [], "raised": "", "found": True}
-            try:
-                return o_get(component_name, context, key, default)
-            except BaseException as e:  # noqa: BLE001
-                ev["found"] = False
-                ev["raised"] = type(e).__name__
-                raise
-            finally:
-                log(ev)
+        p = context.get(PREFIX + key) if isinstance(key, str) else None
+        if p is None:
+            return o_get(component_name, context, key, default)     # no provider visible: nothing to bind
+        ev = {"op": "inject", "id": p, "ps": [], "raised": "", "found": True}
+        try:
+            return o_get(component_name, context, key, default)
+        except BaseException as e:  # noqa: BLE001
+            ev["found"] = False
+            ev["raised"] = type(e).__name__
+            raise
+        finally:
+            log(ev)
 
     pp.register_provide_reference = register
     pp.unregister_provide_reference = unregister
@@ -193,10 +197,11 @@ def install() -> bool:
     return True
 
 
-def start() -> bool:
-    """Begin recording (events are appended until `stop`)."""
+def start(multi: bool = False) -> bool:
+    """Begin recording (events are appended until `stop`).  multi: several threads will call the library."""
     if not install():
         return False
+    _state["multi"] = multi
     _state["events"] = []
     return True
 
@@ -210,7 +215,7 @@ def mark_end(failed: bool) -> None:
     evs = _state["events"]
     if evs is None:
         return
-    evs.append({"op": "end", "id": "", "ps": [], "raised": "", "failed": bool(failed),
+    evs.append({"op": "end", "id": "", "ps": [], "raised": "", "failed": bool(failed), "snap": True,
                 "t": threading.get_ident(), "post": _snapshot(_state["pp"])})
 
 
@@ -246,6 +251,7 @@ def project(events: List[Dict[str, Any]], pre: Optional[Dict[str, Any]] = None) 
         # provide ids that were never `set` inside this trace cannot be named as providers: unbound trace
         ev = {"op": e["op"], "id": nm(e["id"]) if e["id"] else "", "ps": [nm(x) for x in e["ps"]],
               "raised": e["raised"], "found": bool(e.get("found", True)), "failed": bool(e.get("failed", False)),
+              "snap": bool(e.get("snap", True)),
               "cache": [nm(x) for x in post["cache"]],
               "rkeys": [nm(k) for k in post["refs"]],
               "rvals": [[nm(x) for x in post["refs"][k]] for k in post["refs"]],
